@@ -61,6 +61,8 @@ func vfGenGatherCfg(rng interface{ IntN(int) int }) *vfGatherCfg {
 			ifc.Flags = net.FlagBroadcast // down (FlagUp not set)
 		case 1:
 			ifc.Name, ifc.Flags = "lo", net.FlagUp|net.FlagLoopback
+		case 2:
+			ifc.Name, ifc.Flags = fmt.Sprintf("lo%d", i+1), net.FlagLoopback // a loopback device that is down
 		}
 		for k := 1 + rng.IntN(3); k > 0; k-- {
 			a := vfC18AddrPool[rng.IntN(len(vfC18AddrPool))]
@@ -82,6 +84,10 @@ func vfGenGatherCfg(rng interface{ IntN(int) int }) *vfGatherCfg {
 		c.PortMin, c.PortMax = 50000, 50000+uint16(rng.IntN(4)) //nolint:gosec
 	case 1:
 		c.PortMin, c.PortMax = 30000, 31000
+	case 2:
+		if rng.IntN(2) == 0 {
+			c.PortMin, c.PortMax = 0, 1100+uint16(rng.IntN(20000)) //nolint:gosec // half-open: only the upper bound (the lower one defaults to 1024)
+		}
 	}
 	for _, ifc := range c.Ifaces {
 		if rng.IntN(5) == 0 {
@@ -349,6 +355,15 @@ func vfC18Run(e *vfEnv, r *vfResult, idx int) { //nolint:cyclop,maintidx
 		typeEnabled[t] = true
 	}
 	elig := c.eligibleAddrs(wantV4, wantV6)
+	// effective port range: a missing lower bound defaults to 1024, a missing upper bound to 65535
+	ranged := c.PortMin != 0 || c.PortMax != 0
+	portLo, portHi := int(c.PortMin), int(c.PortMax)
+	if ranged && portLo == 0 {
+		portLo = 1024
+	}
+	if ranged && portHi == 0 {
+		portHi = 65535
+	}
 	eligSet := map[netip.Addr]bool{}
 	for _, x := range elig {
 		eligSet[x] = true
@@ -401,14 +416,14 @@ func vfC18Run(e *vfEnv, r *vfResult, idx int) { //nolint:cyclop,maintidx
 			if !eligSet[ip] {
 				r.violation("host-on-excluded-address", "published "+desc+" on an address excluded by interface state / filters / loopback setting / family", wit)
 			}
-			if c.PortMin != 0 && (cd.Port() < int(c.PortMin) || cd.Port() > int(c.PortMax)) {
-				r.violation("host-port-out-of-range", fmt.Sprintf("published %s outside the configured port range %d-%d", desc, c.PortMin, c.PortMax), wit)
+			if ranged && (cd.Port() < portLo || cd.Port() > portHi) {
+				r.violation("host-port-out-of-range", fmt.Sprintf("published %s outside the configured port range %d-%d", desc, portLo, portHi), wit)
 			}
 			hostSeen[cd.NetworkType().NetworkShort()+"/"+ip.String()] = true
 		}
-		if cd.Type() == CandidateTypeServerReflexive && cd.RelatedAddress() != nil && c.PortMin != 0 {
-			if p := cd.RelatedAddress().Port; p < int(c.PortMin) || p > int(c.PortMax) {
-				r.violation("srflx-base-port-out-of-range", fmt.Sprintf("published %s whose base port %d is outside %d-%d", desc, p, c.PortMin, c.PortMax), wit)
+		if cd.Type() == CandidateTypeServerReflexive && cd.RelatedAddress() != nil && ranged {
+			if p := cd.RelatedAddress().Port; p < portLo || p > portHi {
+				r.violation("srflx-base-port-out-of-range", fmt.Sprintf("published %s whose base port %d is outside %d-%d", desc, p, portLo, portHi), wit)
 			}
 		}
 	}
@@ -426,14 +441,14 @@ func vfC18Run(e *vfEnv, r *vfResult, idx int) { //nolint:cyclop,maintidx
 		if !ip.IsUnspecified() && !eligSet[ip] {
 			r.violation("socket-on-excluded-address", fmt.Sprintf("the agent opened a socket on %s, an address excluded by the configuration", vc.local), wit)
 		}
-		if c.PortMin != 0 && (vc.local.Port() < c.PortMin || vc.local.Port() > c.PortMax) {
-			r.violation("socket-port-out-of-range", fmt.Sprintf("the agent opened a socket on %s outside the configured port range %d-%d", vc.local, c.PortMin, c.PortMax), wit)
+		if ranged && (int(vc.local.Port()) < portLo || int(vc.local.Port()) > portHi) {
+			r.violation("socket-port-out-of-range", fmt.Sprintf("the agent opened a socket on %s outside the configured port range %d-%d", vc.local, portLo, portHi), wit)
 		}
 	}
 	// ---- completeness: every eligible address yields a UDP host candidate (the agent's own listener), unless a
 	// mux lends the socket, mDNS hides the addresses, or the port range is smaller than the number of addresses
 	// on one IP (cannot happen: ports are per address)
-	rangeOK := c.PortMin == 0 || int(c.PortMax)-int(c.PortMin) >= 64 // with a tiny range host and srflx sockets compete for ports: completeness not judged
+	rangeOK := !ranged || portHi-portLo >= 64 // with a tiny range host and srflx sockets compete for ports: completeness not judged
 	if typeEnabled[CandidateTypeHost] && udpEnabled && c.UDPMux == "" && effMDNS != MulticastDNSModeQueryAndGather && rangeOK {
 		for _, ipa := range elig {
 			if ipa.Is6() && ipa.IsLinkLocalUnicast() {
